@@ -77,7 +77,13 @@ func (l *listener) Listen(ctx context.Context, onMessage func(msg message) error
 
 		return nil
 	})
-	defer func() { _ = eg.Wait() }()
+	defer func() {
+		// Cancel first: the interrupt goroutine only returns once ctx is done,
+		// so waiting for it before canceling would block forever on any error
+		// which did not originate from the parent context.
+		cancel()
+		_ = eg.Wait()
+	}()
 
 	for {
 		// Receive and pass incoming NDP messages to the caller.
